@@ -43,6 +43,7 @@ var pointValues = map[string][]string{
 	"half":      {"0.5", "0.25", "3.5", "1024.75"},
 	"minusHalf": {"-0.5", "-0.75", "-2.5", "-99.25"},
 	"big7.75":   {"7.75", "123456.5", "-65536.125"},
+	"nearInt":   {"434.99999999999994", "0.9999999999", "-2.9999999999", "8388607.9999999990686774253845214843750"},
 	"maxI32":    {"2147483647", "2147483520", "65536"},
 	"maxI32+1":  {"2147483648", "2147483904", "4294967296"},
 	"minI32":    {"-2147483648", "-2147483520"},
